@@ -383,7 +383,16 @@ impl LockStep {
             Err(Fail::Err) | Err(Fail::OutOfGas) => {
                 self.finished = true;
                 if !failed {
-                    let (p, k) = if r == Err(Fail::OutOfGas) { ("C07", "children-beyond-limit") } else { (prop, "should-fail") };
+                    let over = vm.stack.len() > model::STACK_MAX || vm.memory.len().unwrap_or(Word::MAX) as usize > model::MEM_MAX;
+                    let data_op = matches!(op, Op::Stack(_) | Op::Memory(_) | Op::Compute(_));
+                    let (p, k) = if r == Err(Fail::OutOfGas) {
+                        ("C07", "children-beyond-limit")
+                    } else if over && !data_op {
+                        // the op itself did what it should; the machine let it grow past a limit
+                        ("C05", "bound-exceeded")
+                    } else {
+                        (prop, "should-fail")
+                    };
                     self.diverge(p, k, format!("{op:?} at pc {} succeeded but the reference says it must fail; stack tail {:?}", vm.pc, tail(&vm.stack)));
                 }
             }
@@ -756,7 +765,9 @@ pub fn judge(case: &VmCase, rep: &mut Report, mon: &Monitor, pools: &mut Pools, 
                 rep.count(if e.oog { "outcome.err.out_of_gas" } else { "outcome.err.op" });
                 if e.index != m.pc {
                     issues.push((
-                        real.lock.as_ref().and_then(|l| l.last_op).as_ref().map(op_property).unwrap_or("C05"),
+                        // an out-of-gas error at another op means the gas accounting deviates;
+                        // otherwise the VM went somewhere else after its last executed op
+                        if e.oog || *f == Fail::OutOfGas { "C07" } else { flow_property(&real.lock) },
                         "error-index",
                         format!("error reported at op {} but the failing op is {} ({})", e.index, m.pc, e.text),
                     ));
@@ -783,7 +794,10 @@ pub fn judge(case: &VmCase, rep: &mut Report, mon: &Monitor, pools: &mut Pools, 
                 }
             }
             (Ok(()), Err(e)) => {
-                let p = if e.oog { "C07" } else { ops.get(e.index).map(op_property).unwrap_or("C05") };
+                // If the VM is not where the reference is after the last executed op, the cause is
+                // that op's control flow, not the gas or the op that then failed.
+                let diverted = real.lock.as_ref().is_some_and(|l| l.stopped.is_none() && !l.finished && l.m.pc != e.index);
+                let p = if diverted { flow_property(&real.lock) } else if e.oog { "C07" } else { ops.get(e.index).map(op_property).unwrap_or("C05") };
                 issues.push((p, "unexpected-error", format!("VM failed at op {} ({}) but the reference succeeds with gas {mgas}", e.index, e.text)));
             }
             (Err(f), Ok(g)) => {
@@ -868,6 +882,14 @@ pub fn judge(case: &VmCase, rep: &mut Report, mon: &Monitor, pools: &mut Pools, 
         }
     }
     out
+}
+
+/// Property owning the control flow of the last op the lock-step monitor saw.
+fn flow_property(lock: &Option<LockStep>) -> &'static str {
+    match lock.as_ref().and_then(|l| l.last_op).as_ref().map(op_property) {
+        Some("C10") => "C10",
+        _ => "C09",
+    }
 }
 
 fn in_child_err(e: &RealErr) -> bool {
